@@ -14,7 +14,7 @@
      (5 ms)     delay              (6 trig t) trigger pulse on pin trig, HIGH edge at clock t (us)
      (7 echo r) pulseIn result     (8 (n d))  Serial line, distance n/d                      *)
 From Coq Require Import ZArith QArith List Bool.
-From RV Require Import Base.Wire Device.DButton Device.DPot Device.DUltra.
+From RV Require Import Base.Wire Base.NumC Device.DButton Device.DPot Device.DUltra Host.ButtonHist.
 Import ListNotations.
 Open Scope Z_scope.
 
@@ -381,13 +381,27 @@ Fixpoint exec (fuel : nat) (sk : sketch) (g cnt : Z) (st : sstate) (v : wv) {str
 
 Definition body_fuel : nat := 64.
 
+(* (38 thr) at the top level of the loop body:  if g > thr: continue  - parser/emitter turn a continue of the main loop into
+   "return;" inside loop(): the rest of the body is skipped in this pass (the polls at the head of loop() have already run).
+   Some b: the statement is such a continue, b = taken in this pass *)
+Definition pass_ends (g : Z) (s : wv) : option bool :=
+  match s with
+  | WL [WI 38; WI thr] => Some (g >? thr)
+  | _ => None
+  end.
+
 Fixpoint exec_body (sk : sketch) (g : Z) (st : sstate) (l : list wv) : sstate * list wv :=
   match l with
   | [] => (st, [])
   | s :: r =>
-      let '(s1, e1) := exec body_fuel sk g 0 st s in
-      let '(s2, e2) := exec_body sk g s1 r in
-      (s2, e1 ++ e2)
+      match pass_ends g s with
+      | Some true => (st, [])
+      | Some false => exec_body sk g st r
+      | None =>
+          let '(s1, e1) := exec body_fuel sk g 0 st s in
+          let '(s2, e2) := exec_body sk g s1 r in
+          (s2, e1 ++ e2)
+      end
   end.
 
 Definition run_pass (sk : sketch) (k : nat) (st : sstate) : sstate * list wv :=
@@ -471,7 +485,33 @@ Definition un_gate (v : wv) : option (option pdesc) :=
   end.
 
 (* case 0: (0 N W clock0 drifts passgaps buttons pots ultras gate body)  -> (0 setup-events (pass-events ...))
-   case 1: (1 cb samples) -> (0 ((clicked result) ...))   host Button polled once per sample *)
+   case 1: (1 cb samples) -> (0 ((clicked result) ...))   host Button polled once per sample
+   case 2: (2 depth h provider provider-values ops) -> (0 (events-of-call ...) ok)   host Button, whole call history
+           (Host/ButtonHist.v): h = -1 no on_click, n >= 0 a handler that calls is_pressed() n times; provider-values:
+           what the state_provider returns call after call (the last value repeats; none: False);
+           op (0 num) = set_pressed(num), (1) = is_pressed(); num = (0 z) int | (1 (n d)) float | (2 b) bool | (3) None;
+           event (0) = on_click entered, (1 v) = an is_pressed() call returned v; ok = 0: the last call listed ran out
+           of depth (RecursionError) and the history stops there *)
+Definition un_pynum (v : wv) : option pynum :=
+  match v with
+  | WL [WI 0; WI z] => Some (PI z)
+  | WL [WI 1; q] => match un_q q with Some x => Some (PF x) | None => None end
+  | WL [WI 2; b] => match un_bool b with Some x => Some (PB x) | None => None end
+  | WL [WI 3] => Some PO
+  | _ => None
+  end.
+
+Definition un_hop (v : wv) : option hop :=
+  match v with
+  | WL [WI 0; x] => match un_pynum x with Some a => Some (HSet a) | None => None end
+  | WL [WI 1] => Some HPoll
+  | _ => None
+  end.
+
+Definition prov_of (l : list pynum) (k : nat) : bool := truthy (nth k l (last l (PB false))).
+
+Definition w_hev (e : hev) : wv := match e with HClick => WL [WI 0] | HRet v => WL [WI 1; wbool v] end.
+
 Definition run (v : wv) : wv :=
   match v with
   | WL [WI 0; n; WI w; WI clock0; dr; pg; bs; ps; us; g; WL body] =>
@@ -490,6 +530,14 @@ Definition run (v : wv) : wv :=
       | Some cb', Some s' =>
           wok [WL (map (fun r => WL [wbool (fst r); wbool (snd r)]) (host_run cb' (map zbool s')))]
       | _, _ => wbad
+      end
+  | WL [WI 2; d; WI h; pv; pvals; ops] =>
+      match un_nat d, un_bool pv, un_list un_pynum pvals, un_list un_hop ops with
+      | Some d', Some pv', Some pvals', Some ops' =>
+          let r := h_hist d' {| hc_click := if h <? 0 then None else Some (Z.to_nat h); hc_provider := pv' |}
+                          (prov_of pvals') hs_init ops' in
+          wok [WL (map (fun evs => WL (map w_hev evs)) (fst r)); wbool (snd r)]
+      | _, _, _, _ => wbad
       end
   | _ => wbad
   end.
